@@ -52,7 +52,7 @@ CHECKS = {
         "engine) + exhaustive enumeration of the unit catalogue and its spellings",
         "Generated Arrays/Vectors are converted within and across families; results are compared with the "
         "independent model, the source must be bit-identical afterwards, round trips and chains must agree, "
-        "incompatible pairs must raise. The finite catalogue (9 osyris-defined constants x spellings, 45 generator "
+        "incompatible pairs must raise; complex values and numpy masked arrays go through to() as well (converted complex number, mask kept). The finite catalogue (9 osyris-defined constants x spellings, 45 generator "
         "units, every symbol of the independent table, spelling equivalence sets, two pre-existing user configurations in "
         "a fresh interpreter) is enumerated completely against accepted physical values (masses 1e-3, nominal radii "
         "and luminosities 1e-6, radiation constant 1e-4).",
@@ -77,7 +77,8 @@ CHECKS = {
         "outer) is called on Arrays in positional, axis=, keepdims= and out= forms with same / compatible / "
         "incompatible / bare operands, ndarray or Array conditions, eight dtypes and non-finite values; values must equal numpy's "
         "on raw values (n-ary: as physical quantities), the unit must follow the class, mixed units must be "
-        "converted or refused.",
+        "converted or refused. A storage sub-check covers Arrays holding masked arrays (mask kept) and dtype= / integer out= "
+        "keywords (unit kept).",
         "Trusted: the class assignment of the catalogue (taken from the property statement); numpy as value "
         "reference. Known finding (one root cause): non-transforming n-ary functions combine raw numbers of "
         "operands in different units.",
@@ -100,7 +101,8 @@ CHECKS = {
         "variable lists, unit scales over 60 decades, explicit or -1 output number with decoys) is loaded in full "
         "and compared with the model: key set after vector assembly, row multiset (no missing, duplicated or ghost "
         "row), geometry, level, cpu, every variable x unit factor, unit dimensions, derived mass and B_field, "
-        "meta ncells/time. Exploration bounded to trees of <=2500 cells and <=6 levels above levelmin.",
+        "meta ncells/time. Bound keys are printed exactly or as RAMSES prints them (E23.15). Exploration bounded to trees of "
+        "<=2500 cells and <=6 levels above levelmin, plus single refinement chains down to level 21 (3-D) / 25 (2-D).",
         "Trusted: the RAMSES record layout of DESIGN.md Appendix A as implemented by vlib/ramses_model.py "
         "(cross-validated by osyris' own loader reading it exactly) and RAMSES' unit conventions in var_factor().",
         "DESIGN.md section 3 C01"),
@@ -148,8 +150,10 @@ CHECKS = {
         "current call (differential against fresh execution)",
         "Generated sequences of 2-6 load() calls (full, group subsets, variable lists, restricting position "
         "predicates, level caps, value predicates, cpu_list, sortby) on one dataset; after each call every "
-        "produced group must be bit-identical to the fresh result, other groups unchanged, counts consistent.",
-        "Trusted: the fresh-dataset result (decided by C01-C14). Bounded to 6 calls per history.",
+        "produced group must be bit-identical to the fresh result, other groups unchanged, counts consistent; for position "
+        "and value predicates the fresh result itself is compared with the writer's model (cell count), since state kept "
+        "at module level would reach a reference computed in the same process.",
+        "Trusted: the fresh-dataset result (decided by C01-C14). Bounded to 8 calls per history.",
         "DESIGN.md section 3 C15"),
     "C05": (
         "PBT with points constructed relative to a generated grid (decidable / tolerant / just-outside classes), "
